@@ -1,6 +1,7 @@
 """C11 -- cumulative spline evaluation and its derivative outputs (part: value/derivative recursion of cspline_eval_vs/_gs)."""
 import astlib as A
 import fe
+import splinejac
 import splines
 import tables
 
@@ -11,12 +12,16 @@ def check(rep, tier, replay=None):
         "algebra (bilinear bracket with [a,a]=0, transport operator kept symbolic, scalar coefficients as polynomials in the "
         "basis-derivative values) and compared with the body-derivative recursion of g(u) = prod_j exp(Bcum_j(u) v_j) derived by the "
         "product rule; the basis-derivative rows it uses are the monomial_derivatives table decided under C20.  The Jacobian outputs "
-        "(cspline_eval_dg_dvs / _dg_dgs) are not decided.")
+        "(cspline_eval_dg_dvs / _dg_dgs) are decided in the ray-series domain (rules X2, X3): the optimized IR of witnesses is interpreted over "
+        "truncated power series along v_j = t c_j and compared with the dual-number derivative of the defining recursion, for several "
+        "(group, degree, basis, u) instances including u = 0 and u = 1.")
     rep.trusted.update(["clang++-16 front end", "hand-derived recursion (see props/splines.py check_x1)", "g++ 12 constant evaluator"])
-    rep.assumptions.append("right-Jacobians of value/velocity/acceleration w.r.t. differences and control points are NOT decided")
+    rep.assumptions.append("Jacobians are decided along rational rays through the origin of the difference space (a necessary condition for all "
+                           "inputs), for the (group, K, basis, u) instances listed in the evidence; rounding is not modelled")
     d = fe.ast_dumps(["cspline_eval"])
     rep.unit("umbrella TU filtered cspline_eval; 1 batched static_assert TU")
     splines.check_x1(rep, A.index(d["cspline_eval"]))
     # the derivative rows fed into the recursion: monomial_derivatives<K,3>(u) rows p are d^p/du^p of (1, u, .., u^K)
     ws = [w for w in tables.utility_witnesses(6) if w.id.startswith("mder")]
     tables.run(rep, "X1m", ws, "monomial_derivative(s)<K>(u, p) == k!/(k-p)! u^(k-p) (rows used as Bcum^(p) weights)", 7)
+    splinejac.run(rep, tier)
